@@ -120,6 +120,23 @@ def gen_cases(ctx):
                           "field": field(rng, d, deg), "iterative": it, "sizes": [1, 2, 3, d, d + 1, 50]})
     outs = {"TETRA": [[0.3, 0.3, -0.05], [0.4, 0.4, 0.3], [-0.05, 0.3, 0.3]], "HEXA": [[0.2, 0.3, 1.1], [1.05, 0, 0], [0, -1.2, 0.5]],
             "PRISM": [[0.3, 0.3, 1.05], [0.3, 0.3, -1.1], [0.2, 0.2, 1.2], [0.6, 0.6, 0.0]]}
+    # purity of the geometry queries (with and without the deformed-configuration option) and the
+    # deformed-configuration option against an explicitly moved mesh
+    pur = [("TRI3", True), ("PRISM6", False)] + ([("QUAD4", False), ("TRI6", True), ("TETRA4", True), ("HEXA8", False), ("TETRA10", False)] if thorough else [])
+    for el, ccw in pur:
+        d = DIM[fam(el)]
+        cases.append({"kind": "purity", "elem": el, "poly": star_polygon(rng, ccw), "h": 1.3 if d == 2 else 1.8, "ext": 1.5, "layers": 2, "seed": rng.randint(0, 10**6)})
+    dfm = [("QUAD4", False), ("TETRA4", False)] + ([("TRI3", True), ("TRI6", False), ("HEXA8", True), ("PRISM6", False), ("TETRA10", True)] if thorough else [])
+    for el, ccw in dfm:
+        d = DIM[fam(el)]
+        cases.append({"kind": "deformed", "elem": el, "poly": star_polygon(rng, ccw), "h": 1.3 if d == 2 else 1.8, "ext": 1.5, "layers": 2, "seed": rng.randint(0, 10**6)})
+    # orientation / closure of the volume `faces` tables, every 3-D type, as built / moved / mirrored
+    for el, verts in [("TETRA4", tet), ("TETRA10", tet), ("HEXA8", ppd), ("HEXA20", ppd), ("HEXA27", ppd), ("PRISM6", pri), ("PRISM15", pri), ("PRISM18", pri)]:
+        ms = [m for m in motions(rng, 3)]
+        cases.append({"kind": "faces", "elem": el, "verts": verts, "motions": ms})
+    if thorough:
+        for el in ("TETRA4", "HEXA8", "PRISM6", "TETRA10", "HEXA20", "PRISM15"):
+            cases.append({"kind": "faces", "gmsh": True, "elem": el, "poly": star_polygon(rng, False), "h": 1.8, "ext": 1.5, "layers": 2, "motions": motions(rng, 3)})
     for el, verts in [("TETRA4", tet), ("HEXA8", ppd), ("PRISM6", pri), ("PRISM15", pri)] + ([("TETRA10", tet), ("HEXA20", ppd), ("HEXA27", ppd), ("PRISM18", pri)] if thorough else []):
         cases.append({"kind": "outside", "elem": el, "verts": verts, "seed": 1, "xi_out": outs[fam(el)]})
     return cases
@@ -237,7 +254,7 @@ def run(ctx):
         ctx.note_case(r["cls"])
     ctx.cov["corr_checks"] = len(results)
     ctx.cov["corr_cases"] = len(cases)
-    ctx.cov["case_kinds"] = {k: sum(1 for c in cases if c["kind"] == k) for k in ("geom", "locate_gmsh", "locate_single", "outside")}
+    ctx.cov["case_kinds"] = {k: sum(1 for c in cases if c["kind"] == k) for k in ("geom", "locate_gmsh", "locate_single", "outside", "purity", "deformed", "faces")}
     ctx.cov["element_types_sampled"] = sorted(set(c["elem"] for c in cases))
     ctx.obligation("corr:geometry/location cases", not fails, "%d of %d checks fail; keys %s" % (len(fails), len(results), sorted(by_key)[:8]))
     if results:
@@ -276,8 +293,15 @@ def run(ctx):
             ctx.violation("proof-broken:C08_cur_pointin.v", "point_in_elem_3d_exact no longer checks", {"obligation": "C08_cur_pointin.v", "log": proofs["C08_cur_pointin.v"].log[-3000:]}, found_input=False)
     for f, r in proofs.items():
         if r is not None and not r.ok and not f.startswith("C08_cur_"):
-            ctx.violation("proof-broken:" + f, "theorem file %s no longer checks against the regenerated tables" % f,
-                          {"obligation": f, "log": r.log[-3000:]}, found_input=False)
+            rp = None
+            if f in ("C08_faces.v", "C08_pointin.v"):
+                # numeric witness of a wrong index table: boundary rebuilt from the `faces` tables / points outside
+                rp = replay_for(lambda k, r: k.startswith("faces-table-"), None) if f == "C08_faces.v" else replay_for(lambda k, r: k.startswith("pointin-accepts-outside") or k.startswith("locate-"), None)
+            what = "theorem file %s no longer checks against the regenerated tables" % f
+            if rp is not None:
+                rp = dict(rp, obligation=f, log=r.log[-1500:])
+                what += " — e.g. " + rp["example"][:220]
+            ctx.violation("proof-broken:" + f, what, rp or {"obligation": f, "log": r.log[-3000:]}, found_input=rp is not None)
     # remaining correspondence failures
     for k, rs in sorted(by_key.items()):
         if k in used:
